@@ -501,3 +501,37 @@ func (p *FeedsParamChurn) Act(e *Env) {
 		e.St.Fault("feed_list_parameters_changed_by_governance")
 	}
 }
+
+// FeedsBlackout: for a stretch of the run governance sets the feeds module's max_current_feeds to 0 -- the next feed-list
+// update empties the list and the module holds no price at all -- and restores it later. Whatever consumes prices (tunnels,
+// signature orders) must go on doing everything that does not need one.
+type FeedsBlackout struct {
+	At, Len int
+	orig    uint64
+	state   int
+}
+
+func (p *FeedsBlackout) OnBlock(e *Env, blk *world.BlockRecord) {}
+func (p *FeedsBlackout) Act(e *Env) {
+	gov := getGov(e)
+	if gov == nil || e.Draining {
+		return
+	}
+	np := e.App().FeedsKeeper.GetParams(e.Ctx())
+	switch {
+	case p.state == 0 && e.Step >= p.At:
+		p.orig = np.MaxCurrentFeeds
+		np.MaxCurrentFeeds = 0
+		if np.Validate() == nil {
+			gov.Propose(e, "params_feeds", nil, &feedstypes.MsgUpdateParams{Authority: govAuthority, Params: np})
+			e.St.Fault("feeds_blackout_no_current_feeds")
+		}
+		p.state = 1
+	case p.state == 1 && e.Step >= p.At+p.Len:
+		np.MaxCurrentFeeds = p.orig
+		if np.Validate() == nil {
+			gov.Propose(e, "params_feeds", nil, &feedstypes.MsgUpdateParams{Authority: govAuthority, Params: np})
+		}
+		p.state = 2
+	}
+}
